@@ -744,6 +744,7 @@ class Node(schemdraw.elements.Element):
     def __init__(self, *args, name: str = '', **kwargs):
         super().__init__(*args, name=name, **kwargs)
         self.node_id = name
+        self.segments.append(schemdraw.Segment([(0, 0)], visible=False)) # schemdraw moves an element without segments to the origin when the drawing is rendered
         self.params['theta'] = 0
         self.params['drop'] = (0, 0)
         self.anchors['start'] = (0, 0)
